@@ -379,3 +379,76 @@ fn node_needs_merging_arith() {
 
 
 
+
+// ---- C16-Ob1 / C01: Node::split with the page size symbolic: the pieces partition the entries in order, nothing is
+//      lost or duplicated, every piece keeps at least 2 entries, no index under- or overflows
+// @ob props=C16,C01,C05 tier=quick cap=1200 mem=8 fns=Node::split,Node::size,NodeData::split_at,InnerBucket::new_node,Node::with_data bound="leaf node with 6 entries (concrete 1-byte keys 1..6), value lengths symbolic in 0..=600, page size symbolic in 64..=4096" unwind=8
+#[kani::proof]
+#[kani::unwind(8)]
+fn node_split_partition() {
+    static BUF: [u8; 600] = [0; 600];
+    let ps: u64 = kani::any();
+    kani::assume(ps >= 64 && ps <= 4096);
+    let l: [usize; 6] = kani::any();
+    let mut i = 0;
+    while i < 6 {
+        kani::assume(l[i] <= 600);
+        i += 1;
+    }
+    let keys: [[u8; 1]; 6] = [[1], [2], [3], [4], [5], [6]];
+    let mut v = Vec::with_capacity(6);
+    let mut i = 0;
+    while i < 6 {
+        v.push(kv(&keys[i], &BUF[..l[i]]));
+        i += 1;
+    }
+    let mut node = leaf_node(v, ps);
+    let total = node.size();
+    let b = crate::cursor::jv::mk_bucket(3, true);
+    let mut ib = b.inner.borrow_mut();
+    let r = node.split(&mut ib);
+    // walk the pieces in order and check they are exactly keys 1..6
+    let mut next_key = 1u8;
+    let mut pieces = 0usize;
+    {
+        let first = leaves(&node);
+        assert!(first.len() >= 2 || r.is_none(), "the first piece keeps at least two entries");
+        let mut j = 0;
+        while j < 6 {
+            if j < first.len() {
+                assert!(first[j].key()[0] == next_key, "entries stay in order");
+                next_key += 1;
+            }
+            j += 1;
+        }
+        pieces += 1;
+    }
+    if let Some(sibs) = &r {
+        assert!(total >= ps, "a node is only split when it does not fit a page");
+        assert!(sibs.len() >= 1 && sibs.len() <= 2);
+        let mut s = 0;
+        while s < 2 {
+            if s < sibs.len() {
+                let n = sibs[s].borrow();
+                let part = leaves(&n);
+                assert!(part.len() >= 2, "every piece keeps at least two entries");
+                let mut j = 0;
+                while j < 6 {
+                    if j < part.len() {
+                        assert!(part[j].key()[0] == next_key, "entries stay in order across pieces");
+                        next_key += 1;
+                    }
+                    j += 1;
+                }
+                pieces += 1;
+            }
+            s += 1;
+        }
+    }
+    assert!(next_key == 7, "no entry is lost or duplicated");
+    kani::cover!(pieces == 2);
+    kani::cover!(pieces == 3);
+    kani::cover!(pieces == 1 && total >= ps, "over-full but unsplittable");
+    std::mem::forget(r);
+    std::mem::forget(node);
+}
